@@ -110,7 +110,7 @@ Line ==
 
 Silent ==
   /\ l <= NLines /\ UNCHANGED l
-  /\ \/ \E p \in Pipe : (SenderTake(p) \/ Requeue(p) \/ Push(p) \/ Abandon(p)) /\ UNCH_T
+  /\ \/ \E p \in Pipe : (SenderTake(p) \/ Requeue(p) \/ Push(p) \/ Abandon(p) \/ LingerTake(p) \/ LingerExit(p)) /\ UNCH_T
      \/ Schedule /\ UNCH_T
      \/ \E t \in Thread : \E r \in {"ok", "wait", "ErrClosed", "ErrProtoOp", "ErrNoPeers"} :
           /\ pend[t] # NULL /\ SendCall(t, pend[t], r)
